@@ -484,8 +484,38 @@ class Env:
         return dd, kinds, entries
 
 
+class DoesNotTerminate(Exception):
+    """raised by the watchdog: an operation on the implementation ran for seconds (a cyclic tree makes the
+    searches of hed_group loop and allocate without bound)"""
+
+
+class watchdog:
+    def __init__(self, seconds):
+        self.seconds = seconds
+
+    def __enter__(self):
+        import signal
+
+        def fire(signum, frame):
+            raise DoesNotTerminate()
+        self.old = signal.signal(signal.SIGALRM, fire)
+        signal.setitimer(signal.ITIMER_REAL, self.seconds)
+
+    def __exit__(self, *a):
+        import signal
+        signal.setitimer(signal.ITIMER_REAL, 0)
+        signal.signal(signal.SIGALRM, self.old)
+        return False
+
+
 def impl_history(env, dd, hed, ops):
+    with watchdog(20):
+        return _impl_history(env, dd, hed, ops)
+
+
+def _impl_history(env, dd, hed, ops):
     """run the operations on ONE object; observables after every step"""
+    import signal
     from hed import HedString
     from hed.validator import HedValidator
     obj = HedString(hed, env.schema, dd)
@@ -495,6 +525,7 @@ def impl_history(env, dd, hed, ops):
     for op in ops:
         st = {}
         try:
+            signal.setitimer(signal.ITIMER_REAL, 4)      # per step; the enclosing watchdog restores the handler
             if op == "expand":
                 r = obj.expand_defs()
                 if r is not obj:
@@ -518,6 +549,7 @@ def impl_history(env, dd, hed, ops):
         steps.append(st)
         if "err" in st:
             break
+    signal.setitimer(signal.ITIMER_REAL, 4)
     aliasing = []
     if not (steps and "err" in steps[-1]):
         for old, text in copies:
@@ -662,6 +694,7 @@ def check_frames(ctx, env, def_strings, cells):
         return str(HedString(c, env.schema).shrink_defs()) if "def-expand/" in c.casefold() else c
     ctx.case(("f", tuple(def_strings), tuple(cells)), nontrivial=any("Def" in c for c in cells))
     try:
+      with watchdog(20):
         expanded = [exp(c) for c in cells]
         for what, fn, want_fn, src in (("expand", lambda d, **k: df_util.expand_defs(d, env.schema, dd, **k), exp, cells),
                                        ("shrink", lambda d, **k: df_util.shrink_defs(d, env.schema, **k), shr, expanded)):
@@ -1032,7 +1065,8 @@ def run(ctx):
     gans = ctx.model.batch([{"op": "c09.gather", "defs": [env.def_tree(s) for s in k],
                              "cells": [env.def_tree(c) for c in cells]} for k, cells in gwork])
     for (k, cells), a in zip(gwork, gans):
-        check_gather_model(ctx, env, k, cells, a)
+        with watchdog(30):
+            check_gather_model(ctx, env, k, cells, a)
     ctx.check_time()
     # (c) frames, (d) gathering
     for _ in range(40 if quick else 400):
@@ -1048,7 +1082,8 @@ def run(ctx):
         plain = [c for c in cells if "Def-expand" not in c and "Zed" not in c and
                  not any(split_def(t, "def") and split_def(t, "def")[0].casefold() in empty for t in tags_in(parse(c)))]
         if plain:
-            check_gather(ctx, env, defs, plain)
+            with watchdog(30):
+                check_gather(ctx, env, defs, plain)
         ctx.check_time()
 
 
